@@ -245,7 +245,6 @@ func (h H) openHandlesEveryFile(rule string) {
 		res := fi.MustCrossInLoop(hd, ret, func(a core.Atom) bool { return a.Op == "!=" && a.R == "nil" })
 		h.C.Check(rule+" exit-only-on-error", fmt.Sprintf("log.openSegments in-loop return#%d", k+1), res.OK, h.pos(ret), "the loop over segment files is left although no error occurred (remaining files are neither connected nor removed): "+res.Witness)
 	}
-	h.C.Floor(rule+" (in-loop returns)", n, 1)
 	// the same for every other way out of the loop (break, goto): only the
 	// exhausted range or a non-nil error ends it
 	isErr := func(a core.Atom) bool { return a.Op == "!=" && a.R == "nil" }
@@ -262,8 +261,10 @@ func (h H) openHandlesEveryFile(rule string) {
 				wit += " ; [" + ex.Atom.String() + "]"
 			}
 		}
+		n++
 		h.C.Check(rule+" exit-only-on-error", fmt.Sprintf("log.openSegments loop-exit#%d", k+1), ok, h.pos(ex.From.Instrs[len(ex.From.Instrs)-1]), "the loop over segment files is left although no error occurred (remaining files are neither connected nor removed): "+wit)
 	}
+	h.C.Floor(rule+" (in-loop returns)", n, 1)
 	// a connected segment continues the chain: off == last.lastIndex() && last.n > 0
 	os := h.fn("log:openSegment")
 	for k, c := range h.P.CallsTo(fn, os) {
